@@ -155,7 +155,10 @@ def check_nowindow(c, rec):
 @st.composite
 def bce_edge_cases(draw):
     n = draw(st.integers(1, 6))
-    p = [draw(st.sampled_from([0.0, 1.0, 0.5, 0.25, 1e-3, 1 - 1e-3, 1e-6, 0.75])) for _ in range(n)]
+    # incl. probabilities that are positive but below e^-100 (3.7e-44): log p < -100, the clamp applies there too;
+    # float32 keeps 1e-44 (a denormal), the others round to 0
+    p = [draw(st.sampled_from([0.0, 1.0, 0.5, 0.25, 1e-3, 1 - 1e-3, 1e-6, 0.75, 1e-44, 1e-50, 1e-100, 1e-300, 5e-324, 1e-40, 1e-43]))
+         for _ in range(n)]
     y = [float(draw(st.sampled_from([0, 1]))) for _ in range(n)]
     return {"p": p, "y": y, "dtype": draw(gen.DTYPES), "reduction": draw(st.sampled_from(["mean", "sum", "none"]))}
 
@@ -164,7 +167,9 @@ def check_bce_edge(c, rec):
     dt = np.dtype(c["dtype"])
     p = np.array(c["p"], dtype=dt)
     y = np.array(c["y"], dtype=dt)
-    rec.nontrivial(any(v in (0.0, 1.0) for v in c["p"]))
+    rec.nontrivial(any(v in (0.0, 1.0) or v < 1e-30 for v in c["p"]))
+    if any(0 < v < 3.7e-44 for v in c["p"]):
+        rec.tag("positive_probability_below_exp(-100)")
     out = nn.BCELoss(reduction=c["reduction"])(Tensor(p), Tensor(y))
     p64 = p.astype(np.float64)
     per = -(y * np.maximum(np.log(p64), -100.0) + (1 - y) * np.maximum(np.log1p(-p64), -100.0))
